@@ -258,19 +258,30 @@ def c03_scenarios(cases, prop):
 
 def c15_scenarios(cases, prop, rng):
     out = []
+    # the sets without an evaluable member always take part
+    cases = sorted(cases, key=lambda q: "ok" in q)
     for k, q in enumerate(cases):
-        irr = Irr(); running = []; policies = {}
+        irr = Irr(); running = []; policies = {}; eph0 = []
         for i, cls in enumerate(q):
             name = f"p{i}-{cls}"
             if cls == "ok":
                 v4 = rng.sample(["a", "b", "r9", "r11"], rng.randint(1, 3)); v6 = ["c"] if rng.random() < 0.5 else []
                 expr = irr.asset_with(v4, v6)
                 policies[name] = exp(True, True, "ok", v4, v6, expr, "ok")
+                if (k + i) % 3 == 0:
+                    eph0.append(installed(name, ["d"], []))         # installed with something else: has to change
             else:
                 expr, ev = bad_policy(irr, cls, i)
                 policies[name] = exp(True, True, ev, why=cls)
+                if (k + i) % 2 == 0:
+                    eph0.append(installed(name, ["a"], ["c"]))      # was evaluable once: stays as it is
             running.append(stmt(name, f"/* bgpfu-fltr: {expr} */"))
-        out.append({"case": f"{prop}-q{k}", "instance": "bgpfu", "eph0": [],
+        if "ok" not in q or k % 4 == 0:
+            # other work of the run: an installed policy that is not managed any more
+            eph0.append(installed("gone", ["b"], []))
+            running.append(stmt("gone", None))
+            policies["gone"] = exp(False, False, "none", why="unmarked")
+        out.append({"case": f"{prop}-q{k}", "instance": "bgpfu", "eph0": eph0,
                     "runs": [{"running": running, "irr": irr.db, "faults": [], "repeat": False,
                               "expect": {"prop": prop, "c16": False, "policies": policies}}],
                     "meta": {"family": "c15", "classes": q}})
@@ -279,7 +290,10 @@ def c15_scenarios(cases, prop, rng):
 COMMENT = {"none": None, "other": "/* unrelated comment */", "fltr": "/* bgpfu-fltr: {e} */", "fltr-nospace": "/*bgpfu-fltr:{e}*/",
            "fltr-bare": "bgpfu-fltr: {e}", "fltr-bad": "/* bgpfu-fltr: error! */", "fltr-empty": "/* bgpfu-fltr: */",
            "prefix-only-similar": "/* xbgpfu-fltr: {e} */",
-           "fltr-doublestar": "/** bgpfu-fltr: {e} **/", "fltr-slashes": "// bgpfu-fltr: {e}", "fltr-unterminated": "/* bgpfu-fltr: {e}"}
+           "fltr-doublestar": "/** bgpfu-fltr: {e} **/", "fltr-slashes": "// bgpfu-fltr: {e}", "fltr-unterminated": "/* bgpfu-fltr: {e}",
+           "fltr-wrapped": "/* bgpfu-fltr: {e}\n     OR {w} */", "fltr-wrapped-after-op": "/* bgpfu-fltr: {e} OR\n\t{w} */",
+           "fltr-wrapped-plus": "/* bgpfu-fltr: {e}\n+ OR {w} */"}
+WRAPPED = ("fltr-wrapped", "fltr-wrapped-after-op", "fltr-wrapped-plus")
 
 INACTIVE_TERM = ('<term xmlns:jcmd="http://yang.juniper.net/junos/jcmd" jcmd:active="false"><name>old</name><from><protocol>bgp</protocol></from>'
                  '<then><accept/></then></term>')
@@ -292,13 +306,15 @@ def shape_scenarios(cases, prop):
         sh = c["shape"]; irr = Irr()
         e = irr.asset_with(["a"], ["c"]); ctl = irr.asset_with(["d"], [])
         com = COMMENT[sh["comment"]]
-        com = com.format(e=e) if com else None
+        wrapped = sh["comment"] in WRAPPED
+        w = irr.asset_with(["b"], []) if wrapped else ""
+        com = com.format(e=e, w=w) if com else None
         # escaped characters in names now and then, and names that begin or end with a blank (quoted names may)
         name = {3: "shape<&>\"'", 5: f" lead-{k}", 6: f"trail-{k} "}.get(k % 7, f"shape-{k}")
         st = stmt(name, com, None if sh["active"] == "absent" else sh["active"], RAW_BODY.get(sh["body"], sh["body"]), sh["order"], sh["dupxmlns"], sh["extra"])
         why = " ".join(f"{a}={sh[a]}" for a in ("active", "comment", "body"))
-        pol = {name: exp(c["sel"], c["marked"], "ok" if c["sel"] else "none", ["a"] if c["sel"] else [], ["c"] if c["sel"] else [],
-                         e if c["sel"] else "", why),
+        pol = {name: exp(c["sel"], c["marked"], "ok" if c["sel"] else "none", (["a", "b"] if wrapped else ["a"]) if c["sel"] else [], ["c"] if c["sel"] else [],
+                         (f"{e} OR {w}" if wrapped else e) if c["sel"] else "", why),
                "control": exp(True, True, "ok", ["d"], [], ctl, "control"),
                "plain": exp(False, False, "none", why="plain unannotated statement")}
         running = [stmt("control", f"/* bgpfu-fltr: {ctl} */"), st, stmt("plain", None, body="terms+reject")]
@@ -306,6 +322,48 @@ def shape_scenarios(cases, prop):
                     "runs": [{"running": running, "irr": irr.db, "faults": [], "repeat": False,
                               "expect": {"prop": prop, "c16": True, "policies": pol}}],
                     "meta": dict(sh, family="shape", sel=c["sel"])})
+    return out
+
+def shapehist_scenarios(histories, per_router, prop):
+    """C16 over histories: every statement of a router follows its own history of shapes (valid annotation, another valid
+    one, an annotation that does not parse, deactivated, other content, statement gone, annotation gone); the IRR data
+    behind every expression changes from run to run, so that a statement which is selected always has something to
+    install.  Each router is run by separate agent processes (one per run) and by ONE daemon process (-D)."""
+    out = []
+    T = [(["a"], ["c"]), (["b"], []), (["a", "b"], ["c"]), (["d"], ["c"])]
+    hs = sorted(list(h) for h in histories)
+    for s in range(0, len(hs), per_router):
+        chunk = hs[s:s + per_router]; depth = len(chunk[0]); runs = []
+        for r in range(depth):
+            irr = Irr(); running = []; policies = {}
+            for i, h in enumerate(chunk):
+                name = f"sh-{s + i}"; cls = h[r]
+                # the same two set names for this statement in every run, with other members every time
+                e1 = irr.asset_with(*T[(i + r) % 4]); e2 = irr.asset_with(*T[(i + r + 2) % 4])
+                why = "history " + ">".join(h[:r + 1])
+                if cls in ("valid1", "valid2"):
+                    e, t = (e1, T[(i + r) % 4]) if cls == "valid1" else (e2, T[(i + r + 2) % 4])
+                    running.append(stmt(name, f"/* bgpfu-fltr: {e} */"))
+                    policies[name] = exp(True, True, "ok", t[0], t[1], e, why)
+                elif cls == "malformed":
+                    running.append(stmt(name, f"/* bgpfu-fltr: {e1} AND */"))
+                    policies[name] = exp(False, True, "none", why=why)
+                elif cls == "inactive":
+                    running.append(stmt(name, f"/* bgpfu-fltr: {e1} */", "false"))
+                    policies[name] = exp(False, False, "none", why=why)
+                elif cls == "otherbody":
+                    running.append(stmt(name, f"/* bgpfu-fltr: {e1} */", body="terms+reject"))
+                    policies[name] = exp(False, True, "none", why=why)
+                elif cls == "plain":
+                    running.append(stmt(name, None))
+                    policies[name] = exp(False, False, "none", why=why)
+                else:
+                    policies[name] = exp(False, False, "none", why=why)
+            runs.append({"running": running, "irr": irr.db, "faults": [], "repeat": False,
+                         "expect": {"prop": prop, "c16": True, "policies": policies}})
+        sc = {"case": f"{prop}-sh{s}", "instance": "bgpfu", "eph0": [], "runs": runs, "meta": {"family": "shapehist", "statements": len(chunk)}}
+        out.append(sc)
+        out += daemon_twins([sc], 1)
     return out
 
 def style_scenarios(style_sets, prop):
@@ -612,6 +670,8 @@ def daemon_twins(scenarios, every):
         last = json.loads(json.dumps(t["runs"][-1]))
         # "unchanged inputs" only means something after a run that was not disturbed by the router
         last["repeat"] = not last.get("faults"); last["faults"] = []
+        # ... in which nothing is left to update: that every managed statement is selected shows in the runs before it
+        last["expect"]["c16"] = False
         t["runs"].append(last)
         t["case"] = s["case"] + "-D"
         t["daemon"] = {"period": 1, "sessions": len(t["runs"]), "reset_before": []}
